@@ -100,3 +100,37 @@ Theorem notify_woken_waiter_returns_partial : forall s t c c' th rest,
      else n_parked s2 t = true /\ n_pc th2 = MW).
 Proof. exact woken_waiter_returns. Qed.
 Print Assumptions notify_woken_waiter_returns_partial.
+
+(* sync/atomic: every operation of every width is lowered to an LLVM atomic
+   instruction with seq_cst ordering (one total order of all atomic operations); the
+   table covers every operation x width of Go's API.  props/C11/check.py compares
+   the table with the IR the working tree's cl+ssa emit for every sync/atomic function
+   and typed method ([lowering_ok], evaluated inside Coq); [lowering_ok_meaning] says
+   what an accepted function body contains.  The indivisibility of the instructions
+   themselves is LLVM's and the CPU's (assumed). *)
+Theorem atomics_table_seq_cst : forall o w, snd (atomic_lowering o w) = OSeqCst.
+Proof. exact lowering_all_seq_cst. Qed.
+Print Assumptions atomics_table_seq_cst.
+
+Theorem atomics_table_covers_api : forall o w, api_has o w = true -> In (o, w) api_keys.
+Proof. exact api_keys_complete. Qed.
+Print Assumptions atomics_table_covers_api.
+
+Theorem lowering_ok_meaning : forall pw o w ins, lowering_ok pw (o, w, ins) = true ->
+  ins <> [] /\
+  forall i w' ords, In (i, w', ords) ins ->
+    (i = fst (atomic_lowering o w) \/ expanded_form (fst (atomic_lowering o w)) = Some i) /\
+    (w' = w \/ (w = WPtr /\ w' = pw)) /\ ords <> [] /\ forall x, In x ords -> x = OSeqCst.
+Proof. exact lowering_ok_sound. Qed.
+Print Assumptions lowering_ok_meaning.
+
+Example lowering_rejects_acquire_load :
+  lowering_ok W64 (ALoad, W32, [(ILoadAtomic, W32, [OAcquire])]) = false /\
+  lowering_ok W64 (AStore, W64, [(IStoreAtomic, W64, [ORelease])]) = false /\
+  lowering_ok W64 (ACas, WPtr, [(ICmpXchg, W64, [OSeqCst; OMonotonic])]) = false /\
+  lowering_ok W64 (ALoad, W32, []) = false /\
+  lowering_ok W64 (ALoad, W32, [(ILoadAtomic, W64, [OSeqCst])]) = false /\
+  lowering_ok W64 (AAnd, W32, [(ICmpXchg, W32, [OSeqCst; OSeqCst])]) = true /\
+  lowering_ok W64 (AAnd, W32, [(IRmwAnd, W32, [OSeqCst])]) = true /\
+  lowering_ok W64 (ACas, WPtr, [(ICmpXchg, W64, [OSeqCst; OSeqCst])]) = true.
+Proof. repeat split. Qed.
